@@ -275,3 +275,24 @@ Proof.
   repeat match goal with b : bool |- _ => destruct b end; reflexivity.
 Qed.
 Print Assumptions C19_bool_values_model.
+
+(* Tie T for the ALGORITHM: the `_src` functions are what harness/tables/SchemaInferAlg.py translates
+   (symbolic execution of the Python ast) from the CURRENT source text of wizard_cli/schema.py on every
+   run: possible_types_for_string_value, can_be_bool and json_to_python_type.  They equal the model's
+   kinds_of_string / can_be_bool / scalar_contrib for every string, every JSON scalar, every behaviour of
+   the oracle classifiers and both --force-strings values, so the inference the theorems above reason
+   about is the one the source spells out now. *)
+From DW Require Import T_SchemaInferAlg SchemaInferSrcTie.
+Theorem C19_infer_source_tie :
+  forall (as_date_ok as_time_ok as_datetime_ok isnumeric is_float : pstr -> bool) (bool_values : list pstr) (fs : bool),
+  (forall s, can_be_bool_src bool_values s = can_be_bool bool_values s) /\
+  (forall s, kinds_of_string_src as_date_ok as_time_ok as_datetime_ok isnumeric is_float bool_values fs s
+             = kinds_of_string as_date_ok as_time_ok as_datetime_ok isnumeric is_float bool_values fs s) /\
+  (forall v, scalar_contrib_src as_date_ok as_time_ok as_datetime_ok isnumeric is_float bool_values fs v
+             = scalar_contrib as_date_ok as_time_ok as_datetime_ok isnumeric is_float bool_values fs v).
+Proof.
+  intros. repeat split.
+  - apply kinds_of_string_src_eq.
+  - apply scalar_contrib_src_eq.
+Qed.
+Print Assumptions C19_infer_source_tie.
